@@ -1,4 +1,4 @@
-import Tw.Proofs.NetFail
+import Tw.Proofs.NetPending
 
 /-!
 # C20 — the multi-peer endpoint keeps peers isolated
@@ -255,6 +255,24 @@ theorem pending_peer_silent_on_tick (env : Env) (net net' : Net) (r : Ret) (o : 
       (Peer.new a tok).conn.needsTick = .inactive :=
   ⟨(pending_silent_on_tick hi hs ht).1, (pending_silent_on_tick hi hs ht).2, rfl⟩
 
+/-- **Nothing is sent to a client between `Connect(pid)` and the application's decision.**  From
+a state in which `a`'s peer has just been announced (`Peer.new`, the state `unknown_address` creates),
+along every history respecting the hypothesis that contains no API call on `pid` and no
+`send_connless` to `a` — whatever datagrams arrive from `a` or anybody else, whatever happens to
+other peers, however many ticks — the peer stays exactly as announced and not a single datagram is
+addressed to `a`. -/
+theorem silent_until_decided (a pid : Nat) (tok : Bool) (h : History) (net net' : Net)
+    (outs : List (Ret × Out)) (hi : PInv net.peers) (hok : histOk net h = true)
+    (hs : slot net.peers a = some (pid, Peer.new a tok))
+    (hq : ∀ x ∈ h, quietFor a pid x.2 = true) (hr : run net h = .ok (net', outs)) :
+    slot net'.peers a = some (pid, Peer.new a tok) ∧ ∀ ro ∈ outs, ∀ pkt, (a, pkt) ∉ ro.2.sent := by
+  obtain ⟨h1, h2⟩ := pending_run a pid tok h net net' outs hi hok hs hq hr
+  refine ⟨h1, fun ro hro pkt hm => ?_⟩
+  have := h2 ro hro
+  simp only [Out.for, List.filter_eq_nil_iff] at this
+  have := this (a, pkt) hm
+  simp at this
+
 /-! ## a peer is gone after it was disconnected by either side -/
 
 /-- after `disconnect` / `reject` / `ignore` the peer id is absent and its address unknown again -/
@@ -320,6 +338,8 @@ theorem new_peer_terminates_reachable (acc : Bool) (h : History) (net' : Net) (o
 example : histOk (Net.new true) exampleHistory = true := by decide
 example : finalPeers (run (Net.new true) exampleHistory) = some ([2], [3]) := by decide
 example : PInv (Net.new true).peers := ⟨by simp [Net.new, pids], by simp [Net.new, addrs]⟩
+
+example : ∀ x ∈ exampleHistory.take 2, quietFor 1 0 x.2 = true := by decide
 
 /-- **D22 (repaired), witness in the model of the old code**: with `Net::feed` as it was, the
 history "connect request, the client's retransmission, accept" answers the retransmission (a
